@@ -255,6 +255,20 @@ func c05Units(ctx *core.Ctx) []core.Unit {
 				if msg := validSame(&got, want); msg != "" {
 					vio(r, "c05.scalar", "ipa.IPAConfig.Commit", fmt.Sprintf("v[%d] = 0x%s", i, s.Text(16)), affStr(want), msg)
 				}
+				// agreement with the generic MSM over the published SRS on the same short vector
+				v := make([]fr.Element, i+1)
+				v[i] = frFromBig(s)
+				if i > 0 {
+					v[0] = frFromBig(s)
+					want = ref.Add(want, ref.Mul(ref.SRS()[0], s))
+					got.Add(&got, func() *banderwagon.Element { e := commitAt(c, 0, s); return &e }())
+				}
+				ms, err := ipa.MultiScalar(c.SRS[:i+1], v)
+				if err != nil {
+					vio(r, "c05.multiscalar", "ipa.MultiScalar", fmt.Sprintf("SRS[:%d], v[0]=v[%d]=0x%s", i+1, i, s.Text(16)), "a result", err.Error())
+				} else if msg := validSame(&ms, want); msg != "" || ms.Bytes() != got.Bytes() {
+					vio(r, "c05.multiscalar", "ipa.MultiScalar", fmt.Sprintf("SRS[:%d], v[0]=v[%d]=0x%s", i+1, i, s.Text(16)), "the same element as Commit and the reference: "+affStr(want), msg)
+				}
 			}
 		}})
 	}
@@ -282,6 +296,9 @@ func c05Units(ctx *core.Ctx) []core.Unit {
 						continue
 					}
 					v := p.V[:L]
+					if (pi+L)%2 == 0 {
+						c.Commit(frsFromBig(polys[9].V)) // history: a full-length commitment of the maximal vector right before
+					}
 					got := c.Commit(frsFromBig(v))
 					r.Evals++
 					r.Nontrivial++
